@@ -90,6 +90,36 @@ theorem setuser_off_disables (a : AclState) (name : Bytes) (rules : List Bytes) 
 /-- non-vacuity: switching alice off succeeds on the table below and disables her -/
 example : (setUser tbl [b "alice", b "off"]).2 = .ok ∧ ((setUser tbl [b "alice", b "off"]).1.get 2).enabled = false := by decide
 
+/-- **A refused SETUSER leaves the user table unchanged**: whenever ACL SETUSER answers anything but OK — the
+    error for an empty user name or rule, the error for a key or channel pattern that does not compile — users,
+    rules, connections and the list order are exactly what they were, for every state and every argument vector
+    (the validation of UpdateUser runs before anything is modified). -/
+theorem setuser_refused_no_change (a : AclState) (cmd : List Bytes) (h : (setUser a cmd).2 ≠ .ok) :
+    (setUser a cmd).1 = a := by
+  unfold setUser at h ⊢
+  repeat' split
+  all_goals simp_all
+
+/-- **A pattern that does not compile is refused**, on an existing user and on a new name alike, wherever it
+    stands in the rule list and whatever the other rules are (tokens without an empty one, inside the modelled
+    alphabet): the answer is the error `invalid glob pattern` and nothing changes. Before the repair the pattern
+    was stored and `glob.MustCompile` panicked in CompileGlobs. -/
+theorem setuser_malformed_pattern_refused (a : AclState) (name : Bytes) (rules : List Bytes)
+    (h0 : (name :: rules).contains [] = false) (h1 : ((name :: rules).any fun t => !isAscii t) = false)
+    (h2 : ((rulePatterns (name :: rules)).any fun p => !PubSub.okBytes p) = false)
+    (h3 : ((rulePatterns (name :: rules)).any fun p => !PubSub.compiles p) = true) :
+    setUser a (name :: rules) = (a, .err PubSub.invalidPattern) := by
+  unfold setUser
+  simp only
+  cases a.find name <;> simp only [updateUser_malformed _ _ h0 h1 h2 h3]
+
+/-- the malformed patterns of the former crash, as key rules and as channel rules, among valid rules -/
+example : setUser tbl [b "alice", b "~["] = (tbl, .err PubSub.invalidPattern) := by decide
+example : setUser tbl [b "alice", b "off", b "~b*", b "%R~[b-a]", b "nopass"] = (tbl, .err PubSub.invalidPattern) := by decide
+example : setUser tbl [b "bob", b "on", b "+&["] = (tbl, .err PubSub.invalidPattern) := by decide
+/-- non-vacuity: a well-formed pattern is accepted and stored -/
+example : (setUser tbl [b "alice", b "~a*"]).2 = .ok ∧ ((setUser tbl [b "alice", b "~a*"]).1.get 2).readKeys = [b "a*"] := by decide
+
 /-- the victim chosen by DELUSER is never the default user -/
 theorem delStep_spares_default (st : AclState × Option Bytes) (name : Bytes) (hs : st.2 ≠ some (b "default")) :
     (delStep st name).2 ≠ some (b "default") ∧
